@@ -2,6 +2,7 @@
 // One case per line on stdin, exactly one answer line per case on stdout (flushed per case,
 // so that after a sanitizer abort the runner knows which case was being executed).
 #pragma once
+#include <sys/time.h>
 #include <csignal>
 #include <cstdio>
 #include <cstdlib>
@@ -99,20 +100,38 @@ inline void on_alarm(int)
     _exit(3);
 }
 
-// handler: fields of one case (without the engine tag) -> canonical answer
+// handler: fields of one case (without the engine tag) -> canonical answer.
+// The watchdog counts the CPU time of the process (ITIMER_PROF), so that a busy machine cannot make a
+// case look like a hang; a generous wall-clock alarm behind it catches a case that blocks without
+// using the CPU.  cpu_based = false (threaded harness): wall clock only.
 template <typename F>
-int main_loop(F handler, unsigned watchdog_s = 5)
+int main_loop(F handler, unsigned watchdog_s = 5, bool cpu_based = true)
 {
     std::signal(SIGALRM, on_alarm);
+    std::signal(SIGPROF, on_alarm);
     std::string line;
     while (std::getline(std::cin, line))
     {
         auto f = splitc(line, '\t');
         if (!f.empty())
             f.erase(f.begin());
-        alarm(watchdog_s);
+        struct itimerval it;
+        std::memset(&it, 0, sizeof it);
+        if (cpu_based)
+        {
+            it.it_value.tv_sec = watchdog_s;
+            setitimer(ITIMER_PROF, &it, nullptr);
+            alarm(watchdog_s * 20 + 60);
+        }
+        else
+            alarm(watchdog_s);
         std::string ans = handler(f);
         alarm(0);
+        if (cpu_based)
+        {
+            it.it_value.tv_sec = 0;
+            setitimer(ITIMER_PROF, &it, nullptr);
+        }
         fputs(ans.c_str(), stdout);
         fputc('\n', stdout);
         fflush(stdout);
